@@ -283,6 +283,15 @@ pub fn plan_pipeline_case(check: &str, tier: Tier, seed: u64, idx: u64) -> Plan 
                 group = "precompile/persistent-fault";
             }
         }
+        "C08" => {
+            // a quarter of the life-cycle blocks are followed by a second block on the same state (what was
+            // destroyed / re-created in block 1 is touched, read or re-created again in block 2)
+            if rng.chance(1, 4) {
+                scenario.warm_cache = false;
+                workload::add_second_block(&mut scenario, gen_seed);
+                group = "two-blocks";
+            }
+        }
         "C10" => {
             // cold cache so that speculative readers race commits inside the cache-filling reads;
             // half of the runs execute a second block on the state the first one left behind
@@ -325,7 +334,7 @@ pub fn filter_findings(check: &str, findings: Vec<Finding>) -> (Vec<Finding>, Ve
             "C05" => (f.property == "C05").then_some("C05"),
             "C06" => matches!(f.property, "C06" | "C13").then_some("C06"),
             "C07" => matches!(f.property, "C01" | "C02" | "C03").then_some("C07"),
-            "C08" => matches!(f.property, "C01" | "C02" | "C03").then_some("C08"),
+            "C08" => (matches!(f.property, "C01" | "C02" | "C03") || (f.property == "C10" && (f.class.starts_with("second_block") || f.class.starts_with("readback")))).then_some("C08"),
             "C09" => matches!(f.property, "C01" | "C02" | "C03").then_some("C09"),
             "C10" => (f.property == "C10").then_some("C10"),
             "C11" => matches!(f.property, "C01" | "C02" | "C03" | "C04" | "C11").then_some("C11"),
